@@ -37,10 +37,17 @@ Definition cargo_feature_ok (name items : string) : bool :=
   String.eqb name "likelysubtags"
   || forallb (fun it => negb (String.eqb (item_feature it) "likelysubtags")) (split_comma items).
 
+(* a dependency edge between workspace crates (not a dev-dependency) enables no feature unconditionally: cargo unifies
+   features, so `unic-locale-macros -> unic-locale-impl { features = ["likelysubtags"] }` would switch the refinement of
+   character_direction on for every user of the `macros` feature *)
+Definition cargo_dep_ok (dep items : string) : bool :=
+  negb (String.prefix "unic-" dep) || String.eqb items "".
+
 Definition cfg_site_ok (s : site) : bool :=
   match s with
   | (file, fn, expr, kind) =>
     if String.eqb kind "cargo-feature" then cargo_feature_ok fn expr
+    else if String.eqb kind "cargo-dep" then cargo_dep_ok fn expr
     else if String.eqb expr "unic_locale_verif" then String.eqb kind "mod"
     else
       no_cfg_not expr &&
@@ -57,4 +64,8 @@ Example cargo_feature_rule :
   cargo_feature_ok "serde" "unic-langid-impl/serde" = true /\ cargo_feature_ok "likelysubtags" "unic-langid-impl/likelysubtags" = true
   /\ cargo_feature_ok "serde" "unic-langid-impl/serde,unic-langid-impl/likelysubtags" = false
   /\ cargo_feature_ok "macros" "unic-langid-macros,likelysubtags" = false /\ cargo_feature_ok "binary" "serde,serde_json" = true.
+Proof. vm_compute. repeat split; reflexivity. Qed.
+Example cargo_dep_rule :
+  cargo_dep_ok "syn" "parsing,proc-macro" = true /\ cargo_dep_ok "unic-locale-impl" "" = true
+  /\ cargo_dep_ok "unic-locale-impl" "likelysubtags" = false /\ cargo_dep_ok "unic-langid-impl" "serde" = false.
 Proof. vm_compute. repeat split; reflexivity. Qed.
